@@ -3,14 +3,17 @@ import astq
 from rules import a64hsem, a64sem, jitcross, rvhsem, spec, sshash, x86hsem
 
 LEVEL = 'other'
-TECHNIQUE = 'exhaustiveness over the instruction enumeration in generator / interpreter / x86 emitter, guard-dominates-choice rules for the operand constraints of Table 6.1.1, CFG dominance for the size bound, table agreement with spec 6.1-6.3, known-bits on emitted immediates'
+TECHNIQUE = ('exhaustiveness over the instruction enumeration in generator / interpreter / x86 emitter, guard-dominates-choice rules for the operand constraints of Table 6.1.1, CFG dominance for the size bound, table agreement with spec 6.1-6.3, known-bits on emitted immediates'
+         '; evaluation of the destination-admission paths of the generator against the five conditions of specification 6.3.4; symbolic translation validation of the three native SuperscalarHash emitters')
 CLAIM = ('Decides statically for every key: the ten instruction kinds (14 enumerators) are handled exhaustively by generator, interpreter and x86 emitter; each operand rule of Table 6.1.1 is enforced by a guard on the register / immediate choice '
          '(dst != src where required, r5 never the destination of IADD_RS, non-zero rotation, reciprocal divisor neither 0 nor 2^k); the program can never exceed 3*170+2 instructions and the buffer has that size; the address register is the '
          'arg-max of the recomputed dependency-chain lengths; macro-op, decoder-group and slot tables equal the specification; the interpreter applies the specified operation per kind; the x86 emitter encodes immediates only as '
-         'full 32-bit fields or provably 7-bit counts. Which program a given key yields, termination of the two rejection loops (probabilistic) and equality of native and interpreted register values are not claimed.'
-         ' The A64 and RV64 SuperscalarHash emitters also have an executing case for each of the 14 kinds.')
+         'full 32-bit fields or provably 7-bit counts. Which program a given key yields, termination of the two rejection loops (probabilistic) are not claimed.'
+         ' The A64 and RV64 SuperscalarHash emitters also have an executing case for each of the 14 kinds.'
+         ' The destination-register admission of the generator is decided by evaluating its paths for 40320 combinations of the quantities specification 6.3.4 names (SS-RULES). Native code: for every instruction kind (A64 / RV64: except IMUL_RCP, whose multiplier comes from a literal pool) the words the x86, A64 and RV64 emitters produce are given their architectural meaning on terms over r0..r7 and must equal Table 6.1.1 (X86-SS-HSEM, A64-SS-HSEM, RV-SS-HSEM); the A64 constant helpers are decided for every 32-bit constant (A64-IMMHELP).')
 LEVEL_NOTE = 'Trusted: clang AST; spec tables as oracle; the scheduling simulation (port model) is compared only through its tables, its control flow is not re-derived.'
-EXPLANATION = 'SS-EXH (14 x 5), SS-RULES, SS-SIZE, SS-ADDRREG, SPEC-SSTABLES, SS-EXEC, IMM-ENC, SPEC-BLAKEGEN. SS-EXH for A64 / RV64.'
+EXPLANATION = ('SS-EXH (14 x 5), SS-RULES, SS-SIZE, SS-ADDRREG, SPEC-SSTABLES, SS-EXEC, IMM-ENC, SPEC-BLAKEGEN. SS-EXH for A64 / RV64.'
+         ' SS-RULES (evaluated), X86-/A64-/RV-SS-HSEM, A64-IMMHELP.')
 
 
 def run(ctx, R):
